@@ -465,7 +465,7 @@ func finishScalar(t *rapid.T, c *ScalarCase) {
 			c.Near = pair[1]
 		}
 	}
-	c.Lead = rapid.SampledFrom([]string{"", "", "", "time", "time", "unexported", "plain", "all", "", "", "wide"}).Draw(t, "leadFields")
+	c.Lead = rapid.SampledFrom([]string{"", "", "", "time", "time", "unexported", "plain", "all", "", "", "wide", "sub", "psub"}).Draw(t, "leadFields")
 }
 
 // genAgain: now and then our URL parameter occurs more than once.
